@@ -62,9 +62,6 @@ theorem prefix_slash_unique : ∀ (p p' n t : List Char), '/' ∉ p → '/' ∉ 
       (fun hm => h2 (List.mem_cons_of_mem _ hm)) h
     rw [this]
 
-/-- the part of an annotation name before the first `/`. -/
-def pfx (key : String) : Option (List Char) := (splitSlash key.toList).map (·.1)
-
 theorem underPrefix_iff {p : List Char} (key : String) (hp : '/' ∉ p) :
     underPrefix p key = true ↔ pfx key = some p := by
   simp only [underPrefix, List.isPrefixOf_iff_prefix, pfx]
@@ -91,10 +88,6 @@ theorem underPrefix_iff {p : List Char} (key : String) (hp : '/' ∉ p) :
       subst h
       obtain ⟨_, h2⟩ := splitSlash_spec _ _ _ hs
       exact ⟨n, by simp [h2]⟩
-
-/-- the prefix is `kopf.zalando.org` or a sub-domain of it. -/
-def knownish (p : List Char) : Bool :=
-  knownPrefixes.any (fun kp => kp.toList == p) || knownPrefixes.any (fun kp => ('.' :: kp.toList).isSuffixOf p)
 
 theorem markedPrefix?_pfx {key : String} {p : List Char} (h : markedPrefix? key = some p) : pfx key = some p := by
   unfold markedPrefix? at h
@@ -164,11 +157,6 @@ theorem dropped_iff (K : List String) (key : String) :
     exact ⟨p, hm, (underPrefix_iff key (pfx_no_slash hp)).2 hp⟩
 
 /-! ### the annotation filter of `build` does not see keys under a marked prefix -/
-
-/-- the prefix of `k0` is marked independently of `k0`'s own presence: it is `kopf.zalando.org` or
-    a sub-domain, or another annotation (e.g. the `kopf-managed` marker) marks it. -/
-def Robust (A : Kvs) (k0 : String) (p0 : List Char) : Prop :=
-  knownish p0 = true ∨ ∃ k1, k1 ≠ k0 ∧ k1 ∈ keys A ∧ markedPrefix? k1 = some p0
 
 theorem filter_eq_of_imp {α} (f g : α → Bool) : ∀ (l : List α), (∀ x, x ∈ l → f x = true → g x = true) →
     l.filter f = (l.filter g).filter f
@@ -254,5 +242,10 @@ theorem filter_marked_eq {A A' : Kvs} {k0 : String} {p0 : List Char}
     rw [Bool.eq_iff_iff, dropped_iff, dropped_iff]
     exact ⟨dropped_congr hd hp0 hr hne hkA, dropped_congr hd.symm hp0 hr' hne hkA'⟩
   simp only [keepAnnotation, hany]
+
+theorem marked_dropped_aux {K : List String} {k : String} {p : List Char}
+    (hm : p ∈ markedPrefixes K) (hp : pfx k = some p) : keepAnnotation (markedPrefixes K) k = false := by
+  have : (markedPrefixes K).any (fun p => underPrefix p k) = true := (dropped_iff _ _).2 ⟨p, hp, hm⟩
+  simp [keepAnnotation, this]
 
 end Kopf.C04
